@@ -134,4 +134,141 @@ theorem plainF_tsDefinition (d : Definition) (h : noLocTSDefinition d = true) (f
           (fun x hx => plain_nameV x ((List.all_eq_true.1 h6) x hx)) (fun x _ => nameV_head x)))))))⟩,
       by simp [Item.yieldAll, Item.yield, yieldAll_append]⟩
 
+
+/-! ### every definition -/
+
+def isShortOp : Definition → Bool
+  | .operation d => isShorthand d
+  | _ => false
+
+def isExecDef : Definition → Bool
+  | .operation _ | .fragment _ => true
+  | _ => false
+
+/-- leaf conditions of any definition -/
+def okDefinition (ind : Text) (d : Definition) : Prop :=
+  if isExecDef d then okExecDefinition ind d else okTSDefinition ind d
+/-- no positions (member descriptions ignored) -/
+def noLocDefinition (d : Definition) : Bool := if isExecDef d then noLocExecDefinition d else noLocTSDefinition d
+
+/-- what the document loop needs to know about one printed definition -/
+structure GFacts (c : Cfg) (d : Definition) : Prop where
+  lay : Lay (printDefinition c d) (definitionV (stripDef d)).yield
+  ne : printDefinition c d ≠ []
+  head : (printDefinition c d).head? = some 123 ↔ isShortOp d = true
+  nb : openEnd d = true → NB (printDefinition c d)
+
+theorem gfacts (c : Cfg) (hdesc : c.includeDescriptions = true) (hind : Blank c.indent) (d : Definition)
+    (h : okDefinition c.indent d) : GFacts c d := by
+  cases d with
+  | operation o =>
+    simp only [okDefinition, isExecDef, ↓reduceIte, okExecDefinition] at h
+    obtain ⟨l, pre, hpre⟩ := lay_operation c hind o h
+    have heq := printOperationDefinition_eq c o h
+    refine ⟨by simpa [printDefinition, definitionV, stripDef] using l, by simp [printDefinition, hpre], ?_, by intro e; simp [openEnd] at e⟩
+    simp only [printDefinition, isShortOp]
+    by_cases hs : isShorthand o = true
+    · obtain ⟨_, _, pre', hp'⟩ := lay_selectionSet_delim c hind o.selectionSet h.2.2.2.2
+      simp [heq, hs, hp']
+    · have hs' : isShorthand o = false := by simpa using hs
+      have hop := kw_facts (operation_isName h.1)
+      simp only [heq, hs', Bool.false_eq_true, ↓reduceIte, iff_false]
+      rw [head?_append_ne hop.1]; exact hop.2.1
+  | fragment f =>
+    simp only [okDefinition, isExecDef, ↓reduceIte, okExecDefinition] at h
+    obtain ⟨l, pre, hpre⟩ := lay_fragment c hind f h
+    refine ⟨by simpa [printDefinition, definitionV, stripDef] using l, by simp [printDefinition, hpre], ?_, by intro e; simp [openEnd] at e⟩
+    have e1 : lit "fragment " = K.fragment ++ [32] := by decide
+    simp [printDefinition, isShortOp, printFragmentDefinition, e1, K.fragment]
+  | _ =>
+    simp only [okDefinition, isExecDef, Bool.false_eq_true, ↓reduceIte] at h
+    have f := tsDefFacts c hdesc hind _ h
+    exact ⟨f.lay, f.ne, by simp only [isShortOp, Bool.false_eq_true, iff_false]; exact f.head, f.nb⟩
+
+/-! ### the document loop with the R6 guard -/
+
+/-- the guard of `print_document` -/
+def guardBit (prev : Option Text) (e : Text) : Bool :=
+  match prev with
+  | some p => e.head? == some 123 && !(p.getLast? == some 125)
+  | none => false
+
+/-- the entries of `print_document` with the classes of their tokens -/
+def entryPairs (c : Cfg) : Option Text → List Definition → List LP
+  | _, [] => []
+  | prev, d :: ds =>
+    let e := printDefinition c d
+    let b := guardBit prev e
+    let e' := if b then lit "query " ++ e else e
+    (e', (if b then [(.name, K.query)] else []) ++ (definitionV (stripDef d)).yield) :: entryPairs c (some e') ds
+
+theorem documentEntries_eq (c : Cfg) : ∀ (ds : List Definition) (acc : List Text), (∀ d ∈ ds, printDefinition c d ≠ []) →
+    documentEntries c acc ds = acc.reverse ++ (entryPairs c acc.head? ds).map Prod.fst
+  | [], acc, _ => by simp [documentEntries, entryPairs]
+  | d :: ds, acc, h => by
+    have hne := h d (by simp)
+    have ih := fun acc' => documentEntries_eq c ds acc' (fun x hx => h x (by simp [hx]))
+    cases acc with
+    | nil =>
+      have hn : (printDefinition c d).isEmpty = false := by cases hv : printDefinition c d <;> simp_all
+      simp only [documentEntries, hn, Bool.false_eq_true, ↓reduceIte, ih, entryPairs, guardBit, List.head?_nil,
+        List.head?_cons]
+      simp
+    | cons prev rest =>
+      simp only [documentEntries, entryPairs, guardBit, List.head?_cons]
+      by_cases hb : ((printDefinition c d).head? == some 123 && !(prev.getLast? == some 125)) = true
+      · have hn : (lit "query " ++ printDefinition c d).isEmpty = false := by
+          have : lit "query " = [113, 117, 101, 114, 121, 32] := by decide
+          simp [this]
+        simp only [hb, ↓reduceIte, hn, Bool.false_eq_true, ih, List.head?_cons]
+        simp
+      · have hb' : ((printDefinition c d).head? == some 123 && !(prev.getLast? == some 125)) = false := by simpa using hb
+        have hn : (printDefinition c d).isEmpty = false := by cases hv : printDefinition c d <;> simp_all
+        simp only [hb', Bool.false_eq_true, ↓reduceIte, hn, ih, List.head?_cons]
+        simp
+
+theorem entryPairs_lay (c : Cfg) : ∀ (ds : List Definition) (prev : Option Text), (∀ d ∈ ds, GFacts c d) →
+    (∀ p ∈ entryPairs c prev ds, Lay p.1 p.2) ∧ (∀ p ∈ entryPairs c prev ds, p.1 ≠ [])
+  | [], _, _ => ⟨by intro p hp; simp [entryPairs] at hp, by intro p hp; simp [entryPairs] at hp⟩
+  | d :: ds, prev, h => by
+    obtain ⟨i1, i2⟩ := entryPairs_lay c ds (some (if guardBit prev (printDefinition c d) then lit "query " ++ printDefinition c d
+      else printDefinition c d)) (fun x hx => h x (by simp [hx]))
+    have f := h d (by simp)
+    have hq : Spec.Lexical.isName K.query = true := by decide
+    have eq : lit "query " = K.query ++ [32] := by decide
+    constructor
+    · intro p hp
+      simp only [entryPairs, List.mem_cons] at hp
+      rcases hp with rfl | hp
+      · by_cases hb : guardBit prev (printDefinition c d) = true
+        · simp only [hb, ↓reduceIte, eq]
+          simpa using lay_append (lay_name hq) (lay_space_cons f.lay) (delimHead_cons (by decide))
+        · have hb' : guardBit prev (printDefinition c d) = false := by simpa using hb
+          simpa [hb'] using f.lay
+      · exact i1 p hp
+    · intro p hp
+      simp only [entryPairs, List.mem_cons] at hp
+      rcases hp with rfl | hp
+      · by_cases hb : guardBit prev (printDefinition c d) = true
+        · simp [hb, eq, K.query]
+        · have hb' : guardBit prev (printDefinition c d) = false := by simpa using hb
+          simpa [hb'] using f.ne
+      · exact i2 p hp
+
+/-- the printed document lexes to the classes of its entries -/
+theorem lexesTo_document (c : Cfg) (d : Document) (h : ∀ x ∈ d.definitions, GFacts c x) :
+    LexesTo (printDocument c d) ((entryPairs c none d.definitions).flatMap Prod.snd) := by
+  obtain ⟨hl, hne⟩ := entryPairs_lay c d.definitions none h
+  have he := documentEntries_eq c d.definitions [] (fun x hx => (h x hx).ne)
+  have l1 := lay_joinSep [10, 10] [] (fun b cb hb => by simpa using lay_lf_cons (lay_lf_cons hb))
+    (fun b => delimHead_cons (by decide)) _ hl
+  rw [joinCls_nil] at l1
+  have l2 := lay_append l1 (lay_lf_cons lay_nil) (delimHead_cons (by decide))
+  have := lexesTo_of_lay l2 [] [] safe_nil lexesTo_nil
+  unfold printDocument
+  rw [he, join_eq_joinSep _ _ (by
+    intro x hx; simp only [List.reverse_nil, List.nil_append, List.head?_nil, List.mem_map] at hx
+    obtain ⟨p, hp, rfl⟩ := hx; exact hne p hp)]
+  simpa using this
+
 end PyGql.PrintTokens
